@@ -62,6 +62,10 @@ RULE = ("fresh Environment per batch; formulas from harness/gen/formulas.py (all
         "directed shared-body family: one body node under 2-3 quantifiers with different / overlapping / equal binder sets, "
         "combined under And/Or/Iff/Ite/Not, nested, next to a free occurrence, x maps keyed on every subset of the body's symbols "
         "(+ compound keys): separates per-walk caches keyed on an abstraction of the reduced map; "
+        "creation-order family: abstract cases mixing maps and interpretations in one call (all combinations of empty / non-empty, "
+        "applications inside / outside sub-terms with keys, nested, under binders) rebuilt in fresh environments under six node "
+        "creation orders (symbols first, applications first, formula first, values first and keys last, constants first, shuffled); "
+        "results must be equal up to the environment; "
         "distinct = distinct (formula, map, interpretations) triples with a non-empty map or interpretation")
 
 
@@ -129,14 +133,15 @@ def with_terms(roots, body_fn):
 # case generation
 # ------------------------------------------------------------------------------------------------
 class Case(object):
-    __slots__ = ("f", "subs", "interps", "kind", "mgs", "mss", "mgs_exc", "mss_exc", "batch", "index")
+    __slots__ = ("f", "subs", "interps", "kind", "mgs", "mss", "mgs_exc", "mss_exc", "batch", "index", "env", "order", "blueprint")
 
     def describe(self):
         return {"formula": self.f.serialize()[:1500],
                 "subs": [[k.serialize()[:400], v.serialize()[:400]] for k, v in self.subs],
                 "interpretations": [[fs.symbol_name(), [p.symbol_name() for p in fi.formal_params], fi.function_body.serialize()[:400]]
                                     for fs, fi in self.interps],
-                "map_kind": self.kind, "batch": self.batch, "index": self.index}
+                "map_kind": self.kind, "batch": self.batch, "index": self.index,
+                "creation_order": getattr(self, "order", None)}
 
 
 def subterms(f):
@@ -442,8 +447,159 @@ def gen_shared_body_batch(seed, tier):
     return env, out
 
 
+ORDER_BATCH = 2000           # batch number of the creation-order family (for --replay)
+ORDERS = ["symbols-first", "applications-first", "formula-first", "values-first-keys-last", "constants-first", "shuffled"]
+
+
+def rebuild_in_order(src, order, rnd):
+    """The abstract case `src` (formula, map, interpretations) rebuilt in a FRESH environment with
+    its nodes created in the given order (node ids = creation order are a hidden input of anything
+    that sorts or prunes by id).  Returns a new Case with the implementation's results."""
+    env = Environment()
+    N = env.formula_manager.normalize
+    keys = [k for k, _ in src.subs]
+    vals = [v for _, v in src.subs]
+    bodies = [fi.function_body for _, fi in src.interps]
+    params = [p for _, fi in src.interps for p in fi.formal_params]
+    fsyms = [fs for fs, _ in src.interps]
+    everything = [src.f] + keys + vals + bodies + params + fsyms
+    nodes = ctopo(everything)
+    memo = {}
+    keysyms = frozenset().union(*[free_syms(k, memo) for k in keys]) if keys else frozenset()
+    apps = [n for n in ctopo([src.f]) if n.is_function_application() and not (free_syms(n, memo) & keysyms)]
+    syms = sorted([n for n in nodes if n.is_symbol()], key=lambda n: n.symbol_name())
+    consts = [n for n in nodes if n.is_constant() and not n.is_array_value()]
+    if order == "symbols-first":
+        pre = syms + [src.f]
+    elif order == "applications-first":            # applications older than every key
+        pre = apps + [n for n in ctopo([src.f]) if not (free_syms(n, memo) & keysyms)] + keys
+    elif order == "formula-first":
+        pre = [src.f] + bodies + vals + keys
+    elif order == "values-first-keys-last":        # replacement terms older than the formula, keys younger
+        pre = vals + bodies + apps + [n for n in ctopo([src.f]) if not (free_syms(n, memo) & keysyms)] + keys
+    elif order == "constants-first":
+        pre = consts + list(reversed(syms))
+    else:
+        pre = list(nodes)
+        rnd.shuffle(pre)
+    for n in pre:
+        N(n)
+    c = Case()
+    c.env, c.order, c.kind, c.batch = env, order, src.kind, ORDER_BATCH
+    c.f = N(src.f)
+    c.subs = [(N(k), N(v)) for k, v in src.subs]
+    c.interps = [(N(fs), FunctionInterpretation([N(p0) for p0 in fi.formal_params], N(fi.function_body), allow_free_vars=True))
+                 for fs, fi in src.interps]
+    run_impl(env, c)
+    return c
+
+
+def gen_order_batch(seed, tier):
+    """Creation-order family: abstract cases (with substitution maps AND interpretations mixed in one
+    call: all combinations of empty / non-empty) rebuilt in fresh environments under the creation
+    orders ORDERS.  The results must be equal up to the environment (structural keys), agree with
+    the Coq model (which has no node ids) and satisfy the oracle."""
+    from pysmt.typing import BOOL, INT
+    rnd = random.Random("c05|order|%d" % seed)
+    env = Environment()
+    g = FormulaGen(env, rnd, Config(strings=False, bv=False, custom=False, arrays=False, reals=(rnd.random() < 0.5)))
+    mg = MapGen(env, g, rnd)
+    m = env.formula_manager
+    blue = []
+
+    def add(f, subs, ip, kind):
+        c = Case()
+        c.f, c.subs, c.interps, c.kind = f, list(subs.items()), list(ip.items()), kind
+        blue.append(c)
+    # directed: applications outside / inside sub-terms that contain keys, nested, under binders
+    x, y, z = g.syms[INT]
+    b0 = g.syms[BOOL][0]
+    f_ii = [fn for fn in g.funs if fn.symbol_name().endswith("f_ii")][0]
+    p_iib = [fn for fn in g.funs if fn.symbol_name().endswith("p_iib")][0]
+    q_bb = [fn for fn in g.funs if fn.symbol_name().endswith("q_bb")][0]
+    pa, pb = m.Symbol("fa", INT), m.Symbol("fb", INT)
+    pc = m.Symbol("fc", BOOL)
+    fi_f = FunctionInterpretation([pa], m.Times(pa, m.Int(2)))
+    fi_p = FunctionInterpretation([pa, pb], m.LE(pa, m.Plus(pb, m.Int(1))))
+    fi_q = FunctionInterpretation([pc], m.Not(pc))
+    F = lambda *a: m.Function(f_ii, list(a))
+    P = lambda a, b: m.Function(p_iib, [a, b])
+    directed = [
+        (m.Equals(m.Plus(F(m.Plus(x, m.Int(1))), y), m.Int(0)), {y: m.Int(5)}, {f_ii: fi_f}),
+        (m.LE(F(F(x)), y), {y: m.Plus(x, m.Int(1))}, {f_ii: fi_f}),
+        (m.ForAll([z], P(F(z), y)), {y: m.Int(3)}, {f_ii: fi_f, p_iib: fi_p}),
+        (m.And(P(x, F(m.Plus(y, m.Int(1)))), m.Function(q_bb, [b0])), {y: z}, {f_ii: fi_f, q_bb: fi_q}),
+        (m.Equals(F(m.Plus(x, m.Int(1))), z), {m.Plus(x, m.Int(1)): y}, {f_ii: fi_f}),
+        (m.Or(P(F(x), m.Int(1)), m.Exists([x], P(x, F(y)))), {m.Int(1): z, y: F(z)}, {p_iib: fi_p}),
+        (m.Iff(m.Function(q_bb, [P(x, y)]), b0), {b0: P(F(x), y), y: m.Int(2)}, {f_ii: fi_f, q_bb: fi_q}),
+        (m.LT(m.Times(F(x), F(y)), F(m.Plus(x, y))), {x: y}, {f_ii: fi_f}),
+    ]
+    for f, subs, ip in directed:
+        add(f, subs, ip, "order:directed")
+        add(f, subs, {}, "order:directed")
+        add(f, {}, ip, "order:directed")
+    n = 100 if tier == "quick" else 700
+    tries = 0
+    while len(blue) < n + 3 * len(directed) and tries < 40 * n:
+        tries += 1
+        f = g.gen(rnd.choice([BOOL, BOOL, INT]), rnd.randint(2, 4))
+        if not f.is_term():
+            continue
+        has_app = any(s0 for s0 in f.get_free_variables() if not s0.is_term())
+        if not has_app and rnd.random() < 0.85:
+            continue
+        combo = rnd.choice(["both", "both", "both", "both", "interp", "subs"])
+        ip = mg.interps(f) if combo != "subs" else {}
+        if combo == "interp":
+            subs = {}
+        else:
+            subs = {"sym": mg.sym_map, "term": mg.term_map, "binder": mg.binder_map}[rnd.choice(["sym", "sym", "term", "binder"])](f)
+        if not ip and not subs:
+            continue
+        if array_collision(f, subs) or pow_exponent_replaced(f, subs):
+            continue
+        add(f, subs, ip, "order:" + combo)
+    out = []
+    for bi, src in enumerate(blue):
+        for order in ORDERS:
+            c = rebuild_in_order(src, order, rnd)
+            c.index, c.blueprint = len(out), bi
+            out.append(c)
+    return None, out
+
+
+def order_dependence(chk, cases):
+    """Results of the same abstract case under different creation orders must be structurally equal."""
+    by = {}
+    for c in cases:
+        by.setdefault(c.blueprint, []).append(c)
+    n = 0
+    for bi, group in sorted(by.items()):
+        def res(c):
+            return (tocoq.skey(c.mgs) if c.mgs is not None else None, tocoq.skey(c.mss) if c.mss is not None else None)
+        ref = group[0]
+        for c in group[1:]:
+            if res(c) != res(ref):
+                n += 1
+                d = c.describe()
+                d.update({"kind": "input",
+                          "what": "the result of substitute() depends on the order in which the terms were created in the FormulaManager",
+                          "creation_order": c.order, "reference_creation_order": ref.order,
+                          "observed_mgs": c.mgs.serialize()[:1200] if c.mgs is not None else "raises %s" % c.mgs_exc,
+                          "observed_mss": c.mss.serialize()[:1200] if c.mss is not None else "raises %s" % c.mss_exc,
+                          "reference_mgs": ref.mgs.serialize()[:1200] if ref.mgs is not None else "raises %s" % ref.mgs_exc,
+                          "reference_mss": ref.mss.serialize()[:1200] if ref.mss is not None else "raises %s" % ref.mss_exc,
+                          "oracle": "same abstract (formula, map, interpretations) rebuilt in a fresh environment; results compared by structural key",
+                          "repro": "./check C05 --replay <this file>"})
+                chk.violation(d, key="order:%s:%s" % (c.order, c.f.serialize()[:60]))
+                break
+    return n
+
+
 def gen_batch(seed, batch, tier):
     """Deterministic in (seed, batch): list of Case with the implementation's results."""
+    if batch == ORDER_BATCH:
+        return gen_order_batch(seed, tier)
     if batch == SHARED_BATCH:
         return gen_shared_body_batch(seed, tier)
     rnd = random.Random("c05|%d|%d" % (seed, batch))
@@ -740,7 +896,7 @@ def check_batch_cases(chk, batch, env, cases, rnd, tier, stats):
             stats["changed"] += 1
         if c.mgs is not None and c.mss is not None and c.mgs is not c.mss:
             stats["mgs_ne_mss"] += 1
-        msg = default_entry_points(env, c)
+        msg = default_entry_points(getattr(c, "env", None) or env, c)
         if msg:
             d = c.describe()
             d.update({"kind": "input", "what": msg, "repro": "./check C05 --replay <this file>"})
@@ -768,8 +924,10 @@ def run(tier):
     nb = 10 if tier == "quick" else 60
     stats = {"kinds": {}, "raises": 0, "changed": 0, "mgs_ne_mss": 0, "semantic_evals": 0, "semantic_cases": 0}
     all_cases, files, canon_files = [], [], []
-    for b in list(range(nb)) + [SHARED_BATCH]:
+    for b in list(range(nb)) + [SHARED_BATCH, ORDER_BATCH]:
         env, cases = gen_batch(chk.seed, b, tier)
+        if b == ORDER_BATCH:
+            stats["order_dependent"] = order_dependence(chk, cases)
         check_batch_cases(chk, b, env, cases, rnd, tier, stats)
         off = len(all_cases)
         for p, k, n in write_cases(chk.dir, "b%d" % b, cases, OK_DEF, 100):
@@ -777,6 +935,8 @@ def run(tier):
         for p, k, n in write_cases(chk.dir, "canon%d" % b, cases, CANON_DEF, 200):
             canon_files.append((p, off + k, n))
         all_cases += cases
+    chk.cov["creation_order_family"] = {"cases": sum(v for k0, v in stats["kinds"].items() if k0.startswith("order:")),
+                                        "orders": ORDERS, "order_dependent_results": stats.get("order_dependent", 0)}
     chk.cov["directed_shared_body_family"] = stats["kinds"].get("shared", 0) + stats["kinds"].get("shared+term", 0)
     chk.note("generated %d cases in %d batches; implementation raised on %d, changed the formula on %d, MGS<>MSS on %d; "
              "semantic oracle: %d evaluations on %d cases" % (len(all_cases), nb, stats["raises"], stats["changed"],
